@@ -313,6 +313,8 @@ def run_cli(cli, args, wd, timeout=20):
         err = p.stderr.decode("utf-8", "replace")
         rc = p.returncode
     except subprocess.TimeoutExpired:
+        if timeout < 100:
+            return run_cli(cli, args, wd, timeout=timeout * 8)     # slow machine or really stuck?
         return "timeout"
     if rc in (0, 1):
         return "ok" if rc == 0 else "err"
@@ -430,7 +432,7 @@ def run(ctx):
     inputs += [("aasm", l, b) for l, b in structured_aasm(seeds["aasm"])]
     inputs += [("avbc", l, b) for l, b in structured_avbc(seeds["avbc"])]
     inputs += [("manifest", l, b) for l, b in structured_manifest(quick)]
-    nm = 150 if quick else 4000
+    nm = 150 if quick else 2000
     srcs = [p.encode() for p in progs]
     tomls = [b for _, b in structured_manifest(True)[:4]]
     for kind, base in (("source", srcs), ("aasm", seeds["aasm"]), ("manifest", tomls)):
@@ -499,7 +501,7 @@ def run(ctx):
         ctx.log("cli children")
         cstats = collections.Counter()
         per_kind = collections.Counter()
-        cap = 40 if quick else 600
+        cap = 40 if quick else 300
         for n, ((kind, label, data), o) in enumerate(zip(inputs, outcomes)):
             structured = not label.startswith(("mut-", "raw"))
             if not structured:
